@@ -522,9 +522,9 @@ func init() {
 				return reg.Job{Part: "C03/calls", Build: "instr", Args: map[string]string{"set": set, "strategy": strat, "bound": fmt.Sprint(bound)}, Shards: 16, BudgetS: budget, Label: set + " " + strat + fmt.Sprint(bound), Optional: opt}
 			}
 			if tier == "thorough" {
-				return append(withPolicies(tier, []reg.Job{j("2x1", "por", 0, 600, false), j("2x2", "db", 4, 900, false), j("3x1", "db", 4, 900, false), j("3x2", "db", 3, 600, false), j("mc", "db", 3, 900, false), j("ctx", "db", 3, 900, false), j("2x2", "por", 0, 900, true)}, func(reg.Job) bool { return true }), raceJob(tier), confJob(tier))
+				return append(withPolicies(tier, []reg.Job{j("2x1", "por", 0, 600, false), j("2x2", "db", 5, 900, false), j("3x1", "db", 5, 900, false), j("3x2", "db", 4, 600, false), j("mc", "db", 4, 900, false), j("ctx", "db", 4, 900, false), j("2x2", "por", 0, 900, true)}, func(reg.Job) bool { return true }), raceJob(tier), confJob(tier))
 			}
-			return append(withPolicies(tier, []reg.Job{j("2x1", "por", 0, 100, false), j("2x2", "db", 3, 100, false), j("3x1", "db", 3, 100, false), j("mc", "db", 2, 100, false), j("ctx", "db", 3, 100, false)}, func(reg.Job) bool { return true }), raceJob(tier), confJob(tier))
+			return append(withPolicies(tier, []reg.Job{j("2x1", "por", 0, 100, false), j("2x2", "db", 4, 100, false), j("3x1", "db", 4, 100, false), j("mc", "db", 3, 100, false), j("ctx", "db", 4, 100, false)}, func(reg.Job) bool { return true }), raceJob(tier), confJob(tier))
 		},
 	})
 }
